@@ -292,6 +292,19 @@ def c18_unary_args(E, s):
     elif what == 'diag':
         ok, z, exc = attempt(E, lambda: tt.diag(x))
         compat = True      # torch.diagonal is defined for rectangular modes as well
+    elif what == 'reshape_negative':
+        # negative entries are not mode sizes (there is no -1 inference in torchtt.reshape), whatever their product
+        pn = 1
+        for n in N:
+            pn = pn * n
+        tgt = {'two': [pn, -1, -1], 'neg_all': [-n for n in N], 'one': [pn, -1]}[s['form']] if kind == 'tt' else None
+        ok, z, exc = attempt(E, lambda: tt.reshape(x, tgt))
+        compat = False
+    elif what == 'apply_mask_cols':
+        k = s['k']
+        idx = E.tn.zeros([2, d + k], dtype=E.tn.int64)
+        ok, z, exc = attempt(E, lambda: x.apply_mask(idx))
+        compat = (k == 0) and kind == 'tt'
     else:
         raise ValueError(what)
     if ok:
@@ -324,11 +337,12 @@ def c18_types(E, s):
     B = s.get('B', 3)
     x, N, M, R = s_tt(E, 'x', s.get('d', 2), s.get('kind', 'tt'), B)
     tt = E.tt
-    arg = {'str': 'a', 'none': None, 'list': [1, 2], 'dense': E.stensor('w', [E.dim('w0', 2, B), E.dim('w1', 2, B)]), 'dict': {}}[s['arg']]
+    arg = {'str': 'a', 'none': None, 'list': [1, 2], 'dense': E.stensor('w', [E.dim('w0', 2, B), E.dim('w1', 2, B)]), 'dict': {},
+           'vec': E.stensor('w', [E.dim('w0', 2, B + 1)]), 'col': E.stensor('w', [E.dim('w0', 2, B + 1), 1])}[s['arg']]      # (tensors with more than one element are not scalars)
     what = s['what']
     f = {
         'add': lambda: x + arg, 'radd': lambda: arg + x, 'sub': lambda: x - arg, 'mul': lambda: x * arg, 'matmul': lambda: x @ arg,
-        'truediv': lambda: x / arg, 'kron': lambda: tt.kron(x, arg) if arg is not None else tt.kron(arg, arg), 'pow': lambda: x ** arg,
+        'truediv': lambda: x / arg, 'rmul': lambda: arg * x, 'rsub': lambda: arg - x, 'kron': lambda: tt.kron(x, arg) if arg is not None else tt.kron(arg, arg), 'pow': lambda: x ** arg,
         'dot': lambda: tt.dot(x, arg), 'dot_first': lambda: tt.dot(arg, x), 'bilinear': lambda: tt.bilinear_form(x, arg, x),
         'diag': lambda: tt.diag(arg), 'permute': lambda: tt.permute(arg, [0, 1]), 'save': lambda: tt.save(arg, 'p'),
         'fast_matvec': lambda: x.fast_matvec(arg), 'zeros': lambda: tt.zeros(arg), 'ones': lambda: tt.ones(arg),
